@@ -71,6 +71,9 @@ type relayWorld struct {
 	srv     *Server
 	srvConn *verifsim.SimPacketConn
 	nextPort int // 0 = generator fails
+	tokenIDs map[string]int
+	tokens   []string       // id-1 -> token string
+	tokenPort map[int]int   // token id -> even port it was minted for
 	life    []string
 	clients []*net.UDPAddr
 	peers   []*net.UDPAddr
@@ -387,6 +390,8 @@ func (w *relayWorld) decodeToClient(o verifsim.Outgoing) string {
 				if xa.GetFrom(m) == nil {
 					attrs = append(attrs, "SMapped "+coqAddr(xa.IP, xa.Port))
 				}
+			case stun.AttrReservationToken:
+				attrs = append(attrs, fmt.Sprintf("SToken %d", w.tokenID(string(a.Value))))
 			}
 		}
 		return fmt.Sprintf("Success %s %s %s [%s]", dst, coqMethod(m.Type.Method), tidNum(m.TransactionID), strings.Join(attrs, "; "))
@@ -427,7 +432,26 @@ func (w *relayWorld) listing() string {
 }
 
 // settle lets the server finish, then records the step.
+// tokenID numbers the reservation tokens the server mints in order of first appearance
+func (w *relayWorld) tokenID(tok string) int {
+	if id, ok := w.tokenIDs[tok]; ok {
+		return id
+	}
+	if w.tokenIDs == nil {
+		w.tokenIDs = map[string]int{}
+	}
+	id := len(w.tokenIDs) + 1
+	w.tokenIDs[tok] = id
+	w.tokens = append(w.tokens, tok)
+	return id
+}
+
 func (w *relayWorld) settle(evTerm string) []string {
+	return w.settleWith(func([]string) string { return evTerm })
+}
+
+// settleWith lets the event term depend on what came back (the token the server minted is an input of the model)
+func (w *relayWorld) settleWith(evTermOf func(acts []string) string) []string {
 	synctest.Wait()
 	var acts []string
 	acts = append(acts, w.life...)
@@ -445,7 +469,7 @@ func (w *relayWorld) settle(evTerm string) []string {
 	if len(toClient)+len(toPeer) > 0 {
 		w.nontrivial = true
 	}
-	w.steps = append(w.steps, fmt.Sprintf("OS (%s) [%s] %s", evTerm, strings.Join(acts, "; "), w.listing()))
+	w.steps = append(w.steps, fmt.Sprintf("OS (%s) [%s] %s", evTermOf(acts), strings.Join(acts, "; "), w.listing()))
 	return acts
 }
 
@@ -613,7 +637,17 @@ func (p peerSpec) setter() stun.Setter {
 	return proto.PeerAddress{IP: p.addr.IP, Port: p.addr.Port}
 }
 
+// allocExtra: EVEN-PORT and RESERVATION-TOKEN of an Allocate request
+type allocExtra struct {
+	evenPort int      // 0 absent, 1 present (one byte), 2 present with a wrong size
+	rtoken   attrSpec // kind 0 absent, 1 wrong size, 2 present with token id val (unknown ids are made-up tokens)
+}
+
 func (w *relayWorld) evAllocate(ci int, tid int, c credSpec, transport, lifetime, family attrSpec, dontfrag bool, port int, unknown bool) {
+	w.evAllocateX(ci, tid, c, transport, lifetime, family, dontfrag, port, unknown, allocExtra{})
+}
+
+func (w *relayWorld) evAllocateX(ci int, tid int, c credSpec, transport, lifetime, family attrSpec, dontfrag bool, port int, unknown bool, x allocExtra) {
 	w.nextPort = port
 	setters := []stun.Setter{&stun.Message{TransactionID: tidBytes(tid)}, stun.NewType(stun.MethodAllocate, stun.ClassRequest)}
 	setters = append(setters, w.u32Attr(stun.AttrRequestedTransport, transport, true)...)
@@ -621,6 +655,38 @@ func (w *relayWorld) evAllocate(ci int, tid int, c credSpec, transport, lifetime
 	setters = append(setters, w.u32Attr(stun.AttrRequestedAddressFamily, family, true)...)
 	if dontfrag {
 		setters = append(setters, proto.DontFragment{})
+	}
+	switch x.evenPort {
+	case 1:
+		setters = append(setters, proto.EvenPort{ReservePort: w.rng.Bool()})
+	case 2:
+		setters = append(setters, rawAttr(stun.AttrEvenPort, []byte{0x80, 0}))
+	}
+	rt := "AAbsent"
+	switch x.rtoken.kind {
+	case 1:
+		setters = append(setters, rawAttr(stun.AttrReservationToken, []byte{1, 2, 3, 4}))
+		rt = "ABadSize"
+	case 2:
+		tok := "ZZZZZZZZ"
+		if x.rtoken.val >= 1 && x.rtoken.val <= len(w.tokens) {
+			tok = w.tokens[x.rtoken.val-1]
+		}
+		setters = append(setters, proto.ReservationToken([]byte(tok)))
+		rt = fmt.Sprintf("(APresent %d)", x.rtoken.val)
+		// the generator is asked for the reserved port and hands it out if it is free
+		if q, ok := w.tokenPort[x.rtoken.val]; ok {
+			rip := relayIP4
+			if w.cfg.listenerV6 && !w.cfg.strict {
+				rip = relayIP6 // the family attribute cannot accompany a token: the default family applies
+			}
+			k := (&net.UDPAddr{IP: rip, Port: q + 1}).String()
+			if w.net.Lookup(k) == nil && w.net.LookupListener(k) == nil {
+				port = q + 1
+			} else {
+				port = 0
+			}
+		}
 	}
 	if unknown {
 		setters = append(setters, rawAttr(stun.AttrType(0x7F01), []byte{1, 2, 3, 4}))
@@ -630,12 +696,35 @@ func (w *relayWorld) evAllocate(ci int, tid int, c credSpec, transport, lifetime
 	if port != 0 {
 		rp = fmt.Sprintf("(Some %d)", port)
 	}
-	ev := fmt.Sprintf("EReq %s %d %s (RqAllocate %s %s %s %s %s) %s", coqNetAddr(w.clients[ci]), tid, w.credCoq(c),
-		transport.coq(), lifetime.coq(), family.coq(), verifsim.CoqBool(dontfrag), rp, verifsim.CoqBool(unknown))
-	acts := w.settle(ev)
+	credTerm := w.credCoq(c) // before the reply is decoded: a challenge in the reply replaces the harness's nonce
+	acts := w.settleWith(func(acts []string) string {
+		minted := 0
+		for _, a := range acts {
+			if i := strings.Index(a, "SToken "); i >= 0 && strings.HasPrefix(a, "Success") {
+				fmt.Sscanf(a[i+len("SToken "):], "%d", &minted)
+			}
+		}
+		if minted != 0 && x.evenPort == 1 {
+			if w.tokenPort == nil {
+				w.tokenPort = map[int]int{}
+			}
+			if _, seen := w.tokenPort[minted]; !seen {
+				w.tokenPort[minted] = port
+			}
+		}
+		return fmt.Sprintf("EReq %s %d %s (RqAllocate %s %s %s %s %s %s %s %d) %s", coqNetAddr(w.clients[ci]), tid, credTerm,
+			transport.coq(), lifetime.coq(), family.coq(), verifsim.CoqBool(dontfrag), rp, verifsim.CoqBool(x.evenPort == 1), rt, minted,
+			verifsim.CoqBool(unknown))
+	})
 	w.nextPort = 0
 	w.noteSuccess(acts, lifetime)
 	w.stats["allocate"]++
+	if x.evenPort == 1 {
+		w.stats["allocate-evenport"]++
+	}
+	if x.rtoken.kind != 0 {
+		w.stats["allocate-rtoken"]++
+	}
 }
 
 func (w *relayWorld) noteSuccess(acts []string, _ attrSpec) {
@@ -1089,6 +1178,35 @@ func (w *relayWorld) template(k int, ports []int) {
 			w.evRefresh(ci, w.newTid(), ok(ci), attrSpec{2, 0}, attrSpec{})
 		}
 		w.evTick(ct + pt)
+	case 8: // EVEN-PORT, its reservation token, retransmission of the success, use and expiry of the token
+		tid := w.newTid()
+		c2, c3 := (ci+1)%3, (ci+2)%3
+		ev := allocExtra{evenPort: 1}
+		w.evAllocateX(ci, tid, ok(ci), attrSpec{2, 17}, attrSpec{}, attrSpec{}, false, ports[0], false, ev)
+		w.evAllocateX(ci, tid, ok(ci), attrSpec{2, 17}, attrSpec{}, attrSpec{}, false, ports[2], false, ev) // retransmission
+		w.evAllocateX(ci, w.newTid(), ok(ci), attrSpec{2, 17}, attrSpec{}, attrSpec{}, false, ports[2], false, ev)
+		tok := attrSpec{2, len(w.tokens)}
+		if len(w.tokens) == 0 {
+			tok = attrSpec{2, 9999}
+		}
+		switch rng.Intn(5) {
+		case 0: // token together with EVEN-PORT, and with a requested family
+			w.evAllocateX(c2, w.newTid(), ok(c2), attrSpec{2, 17}, attrSpec{}, attrSpec{}, false, ports[2], false, allocExtra{evenPort: 1, rtoken: tok})
+			w.evAllocateX(c2, w.newTid(), ok(c2), attrSpec{2, 17}, attrSpec{}, attrSpec{2, 1}, false, ports[2], false, allocExtra{rtoken: tok})
+		case 1: // the token has expired
+			w.evTick(30*time.Second + eps())
+			w.evAllocateX(c2, w.newTid(), ok(c2), attrSpec{2, 17}, attrSpec{}, attrSpec{}, false, ports[2], false, allocExtra{rtoken: tok})
+		case 2: // just before it expires
+			w.evTick(30*time.Second - eps())
+		case 3: // an unknown token, a wrong-sized one
+			w.evAllocateX(c2, w.newTid(), ok(c2), attrSpec{2, 17}, attrSpec{}, attrSpec{}, false, ports[2], false, allocExtra{rtoken: attrSpec{2, 9999}})
+			w.evAllocateX(c2, w.newTid(), ok(c2), attrSpec{2, 17}, attrSpec{}, attrSpec{}, false, ports[2], false, allocExtra{rtoken: attrSpec{1, 0}})
+			w.evRefresh(c2, w.newTid(), ok(c2), attrSpec{2, 0}, attrSpec{})
+		}
+		w.evAllocateX(c2, w.newTid(), ok(c2), attrSpec{2, 17}, attrSpec{}, attrSpec{}, false, ports[3], false, allocExtra{rtoken: tok})
+		w.evAllocateX(c3, w.newTid(), ok(c3), attrSpec{2, 17}, attrSpec{}, attrSpec{}, false, ports[3], false, allocExtra{rtoken: tok}) // reserved port taken
+		w.probeBurst(c2)
+		w.evAllocateX(c3, w.newTid(), ok(c3), attrSpec{2, 17}, attrSpec{}, attrSpec{}, false, ports[3], false, allocExtra{evenPort: 1}) // odd port offered
 	case 6: // retransmitted and conflicting Allocate, expiry, re-allocation on the same relay port
 		l := verifsim.Pick(rng, []int{2, 3, 5})
 		tid := w.newTid()
@@ -1185,7 +1303,7 @@ func runRelayHistory(t *testing.T, rng *verifsim.RNG, prop string, nEvents int) 
 		w.freshNonce()
 		ports := []int{49152, 49153, 49154, 49155}
 		if rng.Chance(40) {
-			w.template(rng.Intn(8), ports)
+			w.template(rng.Intn(9), ports)
 		}
 		for i := 0; i < nEvents; i++ {
 			ci := rng.Intn(len(w.clients))
@@ -1250,7 +1368,27 @@ func runRelayHistory(t *testing.T, rng *verifsim.RNG, prop string, nEvents int) 
 				if rng.Chance(4) {
 					port = 0
 				}
-				w.evAllocate(ci, tid, w.genCred(b, ci), tr, lt, fam, rng.Chance(3), port, rng.Chance(3))
+				var x allocExtra
+				if rng.Chance(14) {
+					x.evenPort = 1
+					if rng.Chance(8) {
+						x.evenPort = 2
+					}
+					if port != 0 && port%2 == 1 && rng.Chance(80) && w.portFree(port-1) {
+						port-- // mostly give the generator an even port to hand out
+					}
+				}
+				if rng.Chance(12) {
+					switch {
+					case len(w.tokens) > 0 && rng.Chance(75):
+						x.rtoken = attrSpec{2, 1 + rng.Intn(len(w.tokens))}
+					case rng.Chance(70):
+						x.rtoken = attrSpec{2, 9999}
+					default:
+						x.rtoken = attrSpec{1, 0}
+					}
+				}
+				w.evAllocateX(ci, tid, w.genCred(b, ci), tr, lt, fam, rng.Chance(3), port, rng.Chance(3), x)
 			case "refresh":
 				lt := attrSpec{}
 				if rng.Chance(70) {
